@@ -49,6 +49,10 @@ class Check:
             if "signature" in m and not (signature == m["signature"] if m.get("exact") else
                                          signature.startswith(m["signature"])):
                 continue
+            if "signature_re" in m:
+                import re
+                if not re.match(m["signature_re"], signature):
+                    continue
             if "predicate" in m:
                 if ast is None or not fmod.PREDICATES[m["predicate"]](ast):
                     continue
